@@ -8,6 +8,7 @@ from x2p import impl as I
 HEADER = ('Require Import X2P.Base.Prelude X2P.Model.Executor X2P.Spec.Refs X2P.Corr.C02.\nOpen Scope Z_scope.\n')
 TARGETS = ['theories/Props/C02.vo', 'theories/Corr/C02.vo']
 TITLES = ['Main', 'Data_2', 'My Sheet', "It's", 'Q1  Totals', 'Q1 Totals']      # the last two differ by one blank only
+FN_COLS = [I.column_index_from_string(x) for x in ('IF', 'OR', 'AND', 'SUM', 'MAX', 'MIN', 'MID', 'DAY', 'IFS', 'ORA')]      # columns spelled like function names
 WRAP = ['SUM({r})', 'COUNT({r})', 'MAX({r})', 'INDEX({r},1,1)', 'SUM({r})+1', 'COUNTBLANK({r})', 'AVERAGE({r})', 'MIN({r},5)']
 
 
@@ -19,7 +20,7 @@ def gen_ref(rng, ntitles):
     s = rng.choice([None, None] + list(range(ntitles)))
     own = rng.randrange(ntitles)
     form = rng.choice(['cell', 'cell', 'col', 'row', 'rect', 'rect', 'single_area', 'wholecol', 'wholecols'])
-    c1 = rng.choice([1, 2, 3, 26, 27, 28, 52, 702, 703, 16384, rng.randint(1, 40)])
+    c1 = rng.choice([1, 2, 3, 26, 27, 28, 52, 702, 703, 16384, rng.randint(1, 40), rng.choice(FN_COLS)])
     r1 = rng.choice([1, 2, 9, 10, 11, 99, 100, 99999, rng.randint(1, 30)])
     d = lambda: rng.choice(['', '$'])
     if s is None:
@@ -163,6 +164,8 @@ def pipeline_cases(R):
     d = os.path.join(C.BUILD, 'c02')
     os.makedirs(d, exist_ok=True)
     data = {'A1': 5, 'B1': 7, 'C1': 0, 'A2': 3, 'B2': 0, 'A3': 0, 'B4': 8, 'D4': False, 'A5': 0, 'B5': 0}
+    # formula cells (with function calls of their own) at the top-left corner of areas that other formulas read
+    fcells = {'F1': ('=SUM(A1:B1)', 12), 'F2': ('=MAX(A2,B2)', 3), 'F3': ('=A3+1', 1), 'G1': ('=SUM(F1:F3)+COUNT(A1:B2)', 20)}
     nums = {a: v for a, v in data.items() if not isinstance(v, bool)}
 
     def inside(a, c1, r1, c2, r2):
@@ -177,6 +180,8 @@ def pipeline_cases(R):
         allin = [a for a in data if inside(a, c1, r1, c2, r2)]
         checks += [('=COUNT(%s)' % area, ('num', len(inn))), ('=SUM(%s)' % area, ('num', sum(inn))),
                    ('=COUNTBLANK(%s)' % area, ('num', (c2 - c1 + 1) * (r2 - r1 + 1) - len(allin)))]
+    checks += [('=SUM(Data!F1:F3)', ('num', 16)), ('=COUNT(Data!$F$1:$F$3)', ('num', 3)), ('=Data!F1', ('num', 12)), ('=MAX(Data!F1:G1)', ('num', 20)),
+               ('=SUM(Data!F1:F3)+SUM(Data!F1:F2)', ('num', 31))]
     for col in 'AB':
         inn = [v for a, v in nums.items() if a[0] == col]
         checks += [('=COUNT(Data!%s:%s)' % (col, col), ('num', len(inn))), ('=SUM(Data!$%s:$%s)' % (col, col), ('num', sum(inn)))]
@@ -188,6 +193,8 @@ def pipeline_cases(R):
     wd = wb.create_sheet('Data')
     for a, v in data.items():
         wd[a] = v
+    for a, (f_, _) in fcells.items():
+        wd[a] = f_
     path = os.path.join(d, 'pipe_%d.xlsx' % os.getpid())
     wb.save(path)
     src = I.Parser().set_excel_file_path(path).disable_safety_check().get_translation()
